@@ -20,9 +20,11 @@ fn v(prop: &str, code: &str, msg: String) -> Violation {
 pub fn c02(a: &Analysis<'_>, out: &mut Vec<Violation>) {
     let evs = &a.h.events;
     for at in &a.attempts {
-        if at.finished.is_none() && !a.complete() {
-            continue; // run aborted (reported by C04)
+        if at.finished.is_none() && !a.complete() && a.h.end != crate::core::RunEnd::Panicked {
+            continue; // run aborted by the step cap / a deadlock (reported by C04)
         }
+        // (a run that ended because a panic escaped the runner is not excused: the attempts it cut
+        // short lack their result / after-hook / Finished events, which is what this property forbids)
         let Some(sc) = a.st.scenarios.get(&at.scenario) else {
             out.push(v("C02", "unknown-scenario", format!("events for unknown scenario {:?}", at.scenario)));
             continue;
@@ -454,6 +456,140 @@ pub fn c05(a: &Analysis<'_>, out: &mut Vec<Violation>) {
             }
         }
     }
+    // "... while other scenarios keep running meanwhile": a retry waiting for its delay must not hold
+    // ready concurrent scenarios back (same quiescent-point argument as C06's work conservation,
+    // restricted to points at which some retry's known delay cannot have elapsed)
+    if let Some(u) = first_unfilled(a, true) {
+        out.push(v(
+            "C05",
+            "others-blocked-while-retry-waits",
+            format!(
+                "after completion at event {}: retry of {:?} is waiting for its delay, {} in flight, {} concurrent scenarios ready, expected {} in flight at the next quiescent point (event count {})",
+                u.after_event,
+                u.retry_waiting,
+                u.in_flight,
+                u.ready,
+                u.want,
+                u.q_events
+            ),
+        ));
+    }
+}
+
+/// Work conservation at the first quiescent point after each completion: the first point at which
+/// fewer attempts are in flight than the limit and the ready concurrent scenarios allow.
+struct Unfilled {
+    after_event: usize,
+    in_flight: usize,
+    ready: usize,
+    want: usize,
+    q_events: usize,
+    /// A retried scenario whose known delay cannot have elapsed at that point.
+    retry_waiting: Option<String>,
+}
+
+fn first_unfilled(a: &Analysis<'_>, only_while_retry_waits: bool) -> Option<Unfilled> {
+    let evs = &a.h.events;
+    let limit = a.plan.cfg.limit();
+    // work conservation at the first quiescent point after each completion
+    let serial_names: BTreeSet<&String> = a.st.scenarios.values().filter(|s| s.serial).map(|s| &s.name).collect();
+    let tripped_at = if a.plan.cfg.fail_fast() {
+        a.first_final_failure.or_else(|| evs.iter().position(|e| matches!(e.k, K::ParseError(_))))
+    } else {
+        None
+    };
+    // delivery time of each scenario (first attempt) by feature
+    let mut delivered_at: BTreeMap<&str, u64> = BTreeMap::new();
+    for (i, t, is_err) in &a.h.parser.delivered {
+        if *is_err {
+            continue;
+        }
+        if let ParserItemKind::Feature(fi) = &a.plan.items[*i].kind {
+            delivered_at.insert(a.plan.features[*fi].name.as_str(), *t);
+        }
+    }
+    let mut checked_after: BTreeSet<usize> = BTreeSet::new();
+    for (fi, e) in evs.iter().enumerate() {
+        if !matches!(e.k, K::ScFinished) {
+            continue;
+        }
+        if tripped_at.is_some_and(|t| fi >= t) {
+            break;
+        }
+        // first quiescent point that has seen this event
+        let Some(q) = a.h.quiescent.iter().find(|q| q.events > fi) else { continue };
+        if !checked_after.insert(q.events) {
+            continue;
+        }
+        if tripped_at.is_some_and(|t| q.events > t) {
+            continue;
+        }
+        let upto = &evs[..q.events];
+        let started_keys: BTreeSet<_> = upto.iter().filter(|e| matches!(e.k, K::ScStarted)).filter_map(Ev::attempt_key).collect();
+        let finished_keys: BTreeSet<_> = upto.iter().filter(|e| matches!(e.k, K::ScFinished)).filter_map(Ev::attempt_key).collect();
+        let in_flight = started_keys.len() - finished_keys.len().min(started_keys.len());
+        // serial anywhere near? then the property's "more concurrent scenarios are ready" clause is moot
+        let serial_in_flight = upto
+            .iter()
+            .filter(|e| matches!(e.k, K::ScStarted))
+            .filter(|e| !finished_keys.contains(&e.attempt_key().unwrap()))
+            .any(|e| e.scenario.as_ref().is_some_and(|s| serial_names.contains(s)));
+        if serial_in_flight {
+            continue;
+        }
+        let t_fin = e.at;
+        let started_names: BTreeSet<&str> = upto.iter().filter(|e| matches!(e.k, K::ScStarted)).filter_map(|e| e.scenario.as_deref()).collect();
+        let mut ready = 0usize;
+        let mut serial_ready = false;
+        for sc in a.st.scenarios.values() {
+            let Some(d) = delivered_at.get(sc.feature.as_str()) else { continue };
+            if started_names.contains(sc.name.as_str()) {
+                continue;
+            }
+            if sc.serial {
+                // A serial scenario that was handed over at any time before this quiescent point
+                // may have been seen by the runner's `get()`: then it rightly starts nothing else.
+                if *d <= q.clock {
+                    serial_ready = true;
+                }
+            } else if *d < t_fin {
+                ready += 1;
+            }
+        }
+        let mut retry_waiting: Option<String> = None;
+        // retries waiting: conservative — only count those with zero delay known, finished before t_fin
+        for (name, idxs) in &a.by_scenario {
+            let sc = &a.st.scenarios[name];
+            let Some(last) = idxs.iter().map(|i| &a.attempts[*i]).filter(|t| t.finished.is_some_and(|f| f < q.events)).last() else { continue };
+            let next_started = idxs.iter().map(|i| &a.attempts[*i]).any(|t| t.current() == last.current() + 1 && t.started.is_some_and(|s| s < q.events));
+            if last.failed(evs) && last.left() > 0 && !next_started {
+                let fin_at = evs[last.finished.unwrap()].at;
+                let zero_delay = matches!(sc.known_delay, Some(None));
+                if matches!(sc.known_delay, Some(Some(d)) if q.clock < fin_at.saturating_add(d)) {
+                    retry_waiting = Some(name.clone());
+                }
+                if sc.serial {
+                    // A serial retry that is owed suspends the clause - unless its delay is known and
+                    // cannot have elapsed by this quiescent point (deadline >= finish stamp + delay):
+                    // then the runner must not hold concurrent scenarios back for it.
+                    let certainly_waiting = matches!(sc.known_delay, Some(Some(d)) if q.clock < fin_at.saturating_add(d));
+                    if !certainly_waiting {
+                        serial_ready = true;
+                    }
+                } else if zero_delay && fin_at < t_fin {
+                    ready += 1;
+                }
+            }
+        }
+        if serial_ready {
+            continue;
+        }
+        let want = limit.map_or(in_flight + ready, |l| l.min(in_flight + ready));
+        if in_flight < want && (!only_while_retry_waits || retry_waiting.is_some()) {
+            return Some(Unfilled { after_event: fi, in_flight, ready, want, q_events: q.events, retry_waiting });
+        }
+    }
+    None
 }
 
 // ---------------------------------------------------------------------------------------------
@@ -520,107 +656,18 @@ pub fn c06(a: &Analysis<'_>, out: &mut Vec<Violation>) {
     if !a.complete() {
         return;
     }
-    // work conservation at the first quiescent point after each completion
-    let serial_names: BTreeSet<&String> = a.st.scenarios.values().filter(|s| s.serial).map(|s| &s.name).collect();
-    let tripped_at = if a.plan.cfg.fail_fast() {
-        a.first_final_failure.or_else(|| evs.iter().position(|e| matches!(e.k, K::ParseError(_))))
-    } else {
-        None
-    };
-    // delivery time of each scenario (first attempt) by feature
-    let mut delivered_at: BTreeMap<&str, u64> = BTreeMap::new();
-    for (i, t, is_err) in &a.h.parser.delivered {
-        if *is_err {
-            continue;
-        }
-        if let ParserItemKind::Feature(fi) = &a.plan.items[*i].kind {
-            delivered_at.insert(a.plan.features[*fi].name.as_str(), *t);
-        }
-    }
-    let mut checked_after: BTreeSet<usize> = BTreeSet::new();
-    for (fi, e) in evs.iter().enumerate() {
-        if !matches!(e.k, K::ScFinished) {
-            continue;
-        }
-        if tripped_at.is_some_and(|t| fi >= t) {
-            break;
-        }
-        // first quiescent point that has seen this event
-        let Some(q) = a.h.quiescent.iter().find(|q| q.events > fi) else { continue };
-        if !checked_after.insert(q.events) {
-            continue;
-        }
-        if tripped_at.is_some_and(|t| q.events > t) {
-            continue;
-        }
-        let upto = &evs[..q.events];
-        let started_keys: BTreeSet<_> = upto.iter().filter(|e| matches!(e.k, K::ScStarted)).filter_map(Ev::attempt_key).collect();
-        let finished_keys: BTreeSet<_> = upto.iter().filter(|e| matches!(e.k, K::ScFinished)).filter_map(Ev::attempt_key).collect();
-        let in_flight = started_keys.len() - finished_keys.len().min(started_keys.len());
-        // serial anywhere near? then the property's "more concurrent scenarios are ready" clause is moot
-        let serial_in_flight = upto
-            .iter()
-            .filter(|e| matches!(e.k, K::ScStarted))
-            .filter(|e| !finished_keys.contains(&e.attempt_key().unwrap()))
-            .any(|e| e.scenario.as_ref().is_some_and(|s| serial_names.contains(s)));
-        if serial_in_flight {
-            continue;
-        }
-        let t_fin = e.at;
-        let started_names: BTreeSet<&str> = upto.iter().filter(|e| matches!(e.k, K::ScStarted)).filter_map(|e| e.scenario.as_deref()).collect();
-        let mut ready = 0usize;
-        let mut serial_ready = false;
-        for sc in a.st.scenarios.values() {
-            let Some(d) = delivered_at.get(sc.feature.as_str()) else { continue };
-            if started_names.contains(sc.name.as_str()) {
-                continue;
-            }
-            if sc.serial {
-                // A serial scenario that was handed over at any time before this quiescent point
-                // may have been seen by the runner's `get()`: then it rightly starts nothing else.
-                if *d <= q.clock {
-                    serial_ready = true;
-                }
-            } else if *d < t_fin {
-                ready += 1;
-            }
-        }
-        // retries waiting: conservative — only count those with zero delay known, finished before t_fin
-        for (name, idxs) in &a.by_scenario {
-            let sc = &a.st.scenarios[name];
-            let Some(last) = idxs.iter().map(|i| &a.attempts[*i]).filter(|t| t.finished.is_some_and(|f| f < q.events)).last() else { continue };
-            let next_started = idxs.iter().map(|i| &a.attempts[*i]).any(|t| t.current() == last.current() + 1 && t.started.is_some_and(|s| s < q.events));
-            if last.failed(evs) && last.left() > 0 && !next_started {
-                let fin_at = evs[last.finished.unwrap()].at;
-                let zero_delay = matches!(sc.known_delay, Some(None));
-                if sc.serial {
-                    // A serial retry that is owed suspends the clause - unless its delay is known and
-                    // cannot have elapsed by this quiescent point (deadline >= finish stamp + delay):
-                    // then the runner must not hold concurrent scenarios back for it.
-                    let certainly_waiting = matches!(sc.known_delay, Some(Some(d)) if q.clock < fin_at.saturating_add(d));
-                    if !certainly_waiting {
-                        serial_ready = true;
-                    }
-                } else if zero_delay && fin_at < t_fin {
-                    ready += 1;
-                }
-            }
-        }
-        if serial_ready {
-            continue;
-        }
-        let want = limit.map_or(in_flight + ready, |l| l.min(in_flight + ready));
-        if in_flight < want {
-            out.push(
-                v(
-                    "C06",
-                    "slots-not-filled",
-                    format!("after completion at event {fi}: {in_flight} in flight, {ready} concurrent scenarios ready, limit {limit:?} -> expected {want} in flight at the next quiescent point (event count {})", q.events),
-                )
-                .attr("limit", limit.map_or("none".to_string(), |l| l.min(5).to_string())),
-            );
-            break;
-        }
+    if let Some(u) = first_unfilled(a, false) {
+        out.push(
+            v(
+                "C06",
+                "slots-not-filled",
+                format!(
+                    "after completion at event {}: {} in flight, {} concurrent scenarios ready, limit {limit:?} -> expected {} in flight at the next quiescent point (event count {})",
+                    u.after_event, u.in_flight, u.ready, u.want, u.q_events
+                ),
+            )
+            .attr("limit", limit.map_or("none".to_string(), |l| l.min(5).to_string())),
+        );
     }
     let _ = max_running;
 }
